@@ -377,7 +377,7 @@ pub fn run(ctx: &mut Ctx) {
     ctx.check::<Case>(
         "stress",
         "T in 1..16 OS threads released by a barrier, each running 1..4 segments: up to 2500 DialOpts per segment through 5 builder spellings, up to 23 real Swarm::dial calls, up to 23 inbound connections on one of the thread's two simulated swarms; every id is checked against a process-global record (all earlier cases, lanes and threads). non-trivial = >=2 threads and >=1000 ids in the case; distinct by case hash",
-        ctx.n(400, 8000),
+        ctx.n(300, 8000),
         &stress_strategy,
         &check_stress,
     );
